@@ -1,6 +1,7 @@
-/- Driver ops for Connector.  Ops: connector.state, connector.step, connector.judge, connector.instance -/
+/- Driver ops for Connector.  Ops: connector.state, connector.step, connector.judge, connector.instance, connector.bounds -/
 import JumanjiModel.Bridge.Json
 import JumanjiModel.Env.Connector.Model
+import JumanjiModel.Env.Connector.Bounds
 open Lean Jb
 
 namespace Jb.Connector
@@ -102,7 +103,17 @@ def opInstance : Op := fun j => do
   | none => pure (jObj base)
   | some solved => pure (jObj (base ++ [("walk_board_solvable", jBool (solvedBoardB cfg.n cfg.k s solved))]))
 
+/-- C01: {cfg} → {leaf path: {"lo": rat|null, "hi": rat|null}} = `obsBounds cfg` (the intervals of
+`Props.C01.connector_step_obs_in_bounds`) -/
+def jBounds (bs : List (String × Option Rat × Option Rat)) : Json :=
+  jObj (bs.map (fun b => (b.1, jObj [("lo", match b.2.1 with | some r => jRat r | none => .null),
+                                      ("hi", match b.2.2 with | some r => jRat r | none => .null)])))
+
+def opBounds : Op := fun j => do
+  let cfg ← getCfg (← field j "cfg")
+  pure (jBounds (obsBounds cfg))
+
 def ops : List (String × Op) :=
   [("connector.step", opStep), ("connector.state", opState), ("connector.judge", opJudge),
-   ("connector.instance", opInstance)]
+   ("connector.instance", opInstance), ("connector.bounds", opBounds)]
 end Jb.Connector
